@@ -117,7 +117,23 @@ Inductive kop :=
 | KCr               (* closeForReading *)
 | KCf               (* closeForReadingAndFreeIdle *)
 | KF (g : N)        (* freeEntry(g) *)
-| KK (k : key).     (* freeEntryByKey(key) *)
+| KK (k : key)      (* freeEntryByKey(key) *)
+| KU (k : key)      (* openForUpdating(update, -1) for a StoreEntry with this key *)
+| KSp (n : N)       (* update.stale.splicingPoint = sliceContaining(stale.fileNo, n) *)
+| KCu               (* closeForUpdating(update) *)
+| KAu.              (* abortUpdating(update) *)
+
+(* Ipc::StoreMapUpdate as the updater sees it *)
+Record urec := mkU {
+  uk : key;          (* update.entry->key *)
+  usn : N;           (* stale.name *)
+  usf : N;           (* stale.fileNo *)
+  ufn : N;           (* fresh.name *)
+  uff : N;           (* fresh.fileNo *)
+  ulast : Z;         (* last slice of the fresh prefix written so far *)
+  ussp : Z;          (* stale.splicingPoint *)
+  ufsp : Z           (* fresh.splicingPoint *)
+}.
 
 (* what a client holds between two calls *)
 Inductive cmode :=
@@ -125,15 +141,20 @@ Inductive cmode :=
 | CWrite (f : N) (last : Z)     (* opened f for writing; last = last slice appended (-1: none) *)
 | CAppend (f : N) (last : Z)    (* ... and called startAppending *)
 | CRead (f : N) (k : key)       (* opened f for reading under key k *)
-| COther (f : N) (m : mode).    (* never reached: a lock method returned an answer no caller expects *)
+| COther (f : N) (m : mode)     (* never reached: a lock method returned an answer no caller expects *)
+| CUpd (u : urec).              (* openForUpdating succeeded: stale entry read+headers locked, fresh anchor exclusive *)
 
 Definition legalk (cm : cmode) (o : kop) : bool :=
   match o with
   | KW _ | KX _ | KP _ | KR _ => match cm with CIdle => true | _ => false end
-  | KAdd _ | KCw | KAb => match cm with CWrite _ _ | CAppend _ _ => true | _ => false end
+  | KAdd _ => match cm with CWrite _ _ | CAppend _ _ | CUpd _ => true | _ => false end
+  | KCw | KAb => match cm with CWrite _ _ | CAppend _ _ => true | _ => false end
   | KApp => match cm with CWrite _ _ => true | _ => false end
   | KLook | KCr | KCf => match cm with CRead _ _ => true | _ => false end
   | KF _ | KK _ => true
+  | KU _ => match cm with CIdle => true | _ => false end
+  | KSp _ | KAu => match cm with CUpd _ => true | _ => false end
+  | KCu => match cm with CUpd u => (0 <=? ussp u) && (0 <=? ufsp u) | _ => false end
   end.
 
 (* ---------- program counters ---------- *)
@@ -163,7 +184,10 @@ Inductive lcx :=
 | LcOR (k : key)                      (* openForReadingAt: s.lock.lockShared() *)
 | LcORfail                            (* openForReadingAt: s.lock.unlockShared(); return nullptr *)
 | LcCR                                (* closeForReading: s.lock.unlockShared() *)
-| LcCF.                               (* closeForReadingAndFreeIdle: s.lock.unlockSharedAndSwitchToExclusive() *)
+| LcCF                                (* closeForReadingAndFreeIdle: s.lock.unlockSharedAndSwitchToExclusive() *)
+| LcLH                                (* openForUpdating: update.stale.anchor->lock.lockHeaders() *)
+| LcUH                                (* closeForUpdating / abortUpdating: lock.unlockHeaders() *)
+| LcSW.                               (* closeForUpdating: update.fresh.anchor->lock.switchExclusiveToShared() *)
 
 (* pc of an activity on ONE anchor (the anchor is kept next to it) = the atomic operation performed next.
    b : bool = this writer has called startAppending (lock mode MAppend instead of MExcl) *)
@@ -231,7 +255,9 @@ Inductive outcome :=
 | OOpenR (ok : option key)            (* Some k: opened under key k *)
 | OFree (r : bool)
 | OAdd (id : Z)                       (* -1: pool empty *)
-| OLook (l : list (Z * N)) (whole : bool).
+| OLook (l : list (Z * N)) (whole : bool)
+| OUpd (r : option (N * N))           (* openForUpdating: Some (stale fileno, fresh fileno) *)
+| OSp (id : Z).                       (* sliceContaining() *)
 
 Inductive ares :=
 | ANext (p : apc)
@@ -294,7 +320,7 @@ Definition lcont (a : anchor) (c : lcx) (m : mode) : ares :=
   match c with
   | LcOW ow ok => match m with MExcl => ANext (OW1 ow ok) | _ => ADone m (OOpenW false) end
   | LcOWbail => ADone m (OOpenW false)
-  | LcSA | LcCW | LcAbUX | LcFkXu | LcFkSu | LcCR => ADone m OUnit
+  | LcSA | LcCW | LcAbUX | LcFkXu | LcFkSu | LcCR | LcLH | LcUH | LcSW => ADone m OUnit
   | LcAbSP => match m with MExcl => fc_entry FcAbort a | MBusy => ANext AB3 | _ => ADone m OUnit end
   | LcFcUX c' => match m with MIdle => if keep c' then ADone m OUnit else ANext (CT c') | _ => ADone m OUnit end
   | LcFE => match m with MExcl => ANext FE1 | MIdle => ANext FE2 | _ => ADone m (OFree false) end
@@ -473,6 +499,57 @@ Definition astep (sh : mshared) (f : N) (p : apc) : mshared * ares * list mevent
       (putA sh1 f a', r, evs)
   end.
 
+(* ---------- updating (openForUpdating / closeForUpdating / abortUpdating) ---------- *)
+(* which abortUpdating()-like tail *)
+Inductive abk :=
+| AbOpenFail       (* openForUpdating: openKeyless() failed: abortUpdating(update) with stale only; return false *)
+| AbClient         (* abortUpdating(update) called by the updater *)
+| AbClose.         (* closeForUpdating: the final unlockHeaders / closeForReading(stale) / closeForReading(fresh) *)
+
+(* what follows a call made by the update methods into the single-anchor methods *)
+Inductive ucont :=
+| UcOpenR                        (* openForReadingAt(stale.fileNo, key) *)
+| UcFailCR                       (* closeForReading(stale.fileNo); return false *)
+| UcLH                           (* stale.anchor->lock.lockHeaders() *)
+| UcVictimOW (tries name : N)    (* openKeyless: openForWritingAt(fileNoByName(name)) *)
+| UcAdd                          (* the updater appends a slice to the fresh prefix *)
+| UcSW                           (* fresh.anchor->lock.switchExclusiveToShared() *)
+| UcFE1 | UcFE2                  (* freeEntry(fresh.fileNo) before / after relocate(stale.name, fresh.fileNo) *)
+| UcFE3                          (* freeEntry(stale.fileNo) *)
+| UcUH (ab : abk)                (* stale.anchor->lock.unlockHeaders() *)
+| UcCRs (ab : abk)               (* closeForReading(stale.fileNo) *)
+| UcCRf                          (* closeForReading(fresh.fileNo) *)
+| UcAW.                          (* abortWriting(fresh.fileNo) *)
+
+Inductive upc :=
+| UCall (c : ucont) (f : N) (p : apc)    (* inside a single-anchor method, on anchor f *)
+| UFn                                    (* openForUpdating: fileNoByName(stale.name): load fileNos->items[name] *)
+| UWr                                    (* load stale lock.writing : if (update.stale.anchor->writing()) *)
+| UVic (tries : N)                       (* visitVictims: ++anchors->victim *)
+| UVfn (tries name : N)                  (* fileNoByName(name): load fileNos->items[name] *)
+| USet1                                  (* fresh.anchor->set(entry): load lock.writing : assert(writing() && ...) *)
+| USet2                                  (* load lock.readers : assert(... && !reading()); setKey: memcpy(key) *)
+| USet3                                  (* setKey: waitingToBeFreed = markedForDeletion(key) [false] *)
+| USet4                                  (* basics.swap_file_sz = from.swap_file_sz *)
+| USC0 (n : N)                           (* sliceContaining: load lock.readers : Must(anchor.reading()) *)
+| USC1 (n : N)                           (* load anchor.start *)
+| USC2 (n : N) (sid : Z) (seen : N)      (* bytesSeen += slice.size *)
+| USC3 (n : N) (sid : Z) (seen : N)      (* lastSlice = slice.next *)
+| UAF (ab : abk)                         (* AssertFlagIsSet(stale.anchor->lock.updating): test_and_set *)
+| UC2                                    (* closeForUpdating: load stale.anchor->start *)
+| UC3 (x : Z)                            (* load fresh.anchor->start : Must(stale start != fresh start) *)
+| UC4                                    (* load stale.anchor->start : Must(!= fresh.splicingPoint) *)
+| UC5                                    (* load fresh.anchor->start : Must(stale.splicingPoint != it) *)
+| UC6                                    (* suffixStart = sliceAt(stale.splicingPoint).next *)
+| UC7 (suffix : Z)                       (* load freshSplicingSlice.next : if (... < 0) *)
+| UC8 (suffix : Z)                       (* freshSplicingSlice.next = suffixStart *)
+| UC8b (suffix : Z)                      (* load freshSplicingSlice.next : Must(== suffixStart) *)
+| UC9                                    (* load stale waitingToBeFreed (before relocate) *)
+| UC10                                   (* relocate(stale.name, fresh.fileNo): fileNos->items[name] = fileno+1 *)
+| UC11                                   (* load stale waitingToBeFreed (after relocate) *)
+| UC12                                   (* stale.anchor->splicingPoint = stale.splicingPoint *)
+| UC13.                                  (* relocate(fresh.name, stale.fileNo) *)
+
 (* ---------- processes ---------- *)
 Inductive spc :=
 | Rdy                          (* between calls: the use step, then the next legal script operation *)
@@ -484,7 +561,8 @@ Inductive spc :=
 | KeyR (k : key)               (* openForReading: fileNoByKey(key) *)
 | KeyF (k : key)               (* freeEntryByKey: fileNoByKey(key) *)
 | Prim (f : N) (p : apc)       (* inside an operation on the entry being opened / held *)
-| Tran (g : N) (p : apc).      (* inside freeEntry(g) / freeEntryByKey(key) *)
+| Tran (g : N) (p : apc)       (* inside freeEntry(g) / freeEntryByKey(key) *)
+| UP (u : urec) (q : upc).     (* inside openForUpdating / sliceContaining / fresh append / closeForUpdating / abortUpdating *)
 
 Record mthread := mkT {
   cm : cmode;                  (* what the client holds (updated when an operation returns) *)
@@ -502,7 +580,7 @@ Fixpoint fetchk (m : cmode) (s : list kop) : option (kop * list kop) :=
   end.
 
 Definition cm_anchor (m : cmode) : N :=
-  match m with CIdle => 0%N | CWrite f _ | CAppend f _ | CRead f _ | COther f _ => f end.
+  match m with CIdle => 0%N | CWrite f _ | CAppend f _ | CRead f _ | COther f _ => f | CUpd u => uff u end.
 Definition cm_last (m : cmode) : Z :=
   match m with CWrite _ l | CAppend _ l => l | _ => -1 end.
 Definition cm_app (m : cmode) : bool := match m with CAppend _ _ => true | _ => false end.
@@ -514,6 +592,7 @@ Definition cm_lmode (m : cmode) (f : N) : mode :=
   | CAppend g _ => if (g =? f)%N then MAppend else MIdle
   | CRead g _ => if (g =? f)%N then MShared else MIdle
   | COther g x => if (g =? f)%N then x else MIdle
+  | CUpd _ => MIdle     (* the three lock shares of an updater are not projected (theorems exclude updaters) *)
   end.
 
 (* the client's mode after a primary operation on f returned with lock mode m.
@@ -549,6 +628,197 @@ Fixpoint first_free (l : list (option N)) (i : N) : option N :=
   | Some _ :: r => first_free r (N.succ i)
   end.
 
+(* ---------- one atomic operation of an update method ---------- *)
+Inductive ures :=
+| UNext (u : urec) (q : upc)
+| UDone (m : cmode) (o : outcome)
+| UCrash.                              (* an assert()/Must() failed *)
+
+Definition set_usf (u : urec) sn sf := mkU (uk u) sn sf (ufn u) (uff u) (ulast u) (ussp u) (ufsp u).
+Definition set_uff (u : urec) fn ff := mkU (uk u) (usn u) (usf u) fn ff (ulast u) (ussp u) (ufsp u).
+Definition set_ulast (u : urec) id := mkU (uk u) (usn u) (usf u) (ufn u) (uff u) id (ussp u) id.
+Definition set_ussp (u : urec) id := mkU (uk u) (usn u) (usf u) (ufn u) (uff u) (ulast u) id (ufsp u).
+Definition urec0 (k : key) : urec := mkU k 0%N 0%N 0%N 0%N (-1) (-1) (-1).
+
+Definition set_victim (sh : mshared) v := mkM (anchors sh) (slices sh) (count sh) v (fileNos sh) (owner sh).
+Definition set_fileNos (sh : mshared) v := mkM (anchors sh) (slices sh) (count sh) (victim sh) v (owner sh).
+
+(* visitVictims: for (; tries < searchLimit; ++tries) { name = ++anchors->victim % entryLimit(); ... }  else abortUpdating *)
+Definition vic_next (sh : mshared) (u : urec) (tries : N) : ures :=
+  if (tries <? nlimit sh)%N then UNext u (UVic tries) else UNext u (UAF AbOpenFail).
+
+(* sliceContaining loop head: while (lastSlice >= 0) { const Slice &slice = sliceAt(lastSlice); ... } return lastSlice; *)
+Definition sc_head (sh : mshared) (u : urec) (n : N) (sid : Z) (seen : N) : ures :=
+  if sid <? 0 then UDone (CUpd (set_ussp u sid)) (OSp sid)
+  else match sidx sh sid with Some _ => UNext u (USC2 n sid seen) | None => UCrash end.
+
+(* after the single-anchor method called at c (on anchor f) returned outcome o, leaving lock mode m *)
+Definition ucontinue (sh : mshared) (u : urec) (c : ucont) (f : N) (m : mode) (o : outcome) : ures :=
+  match c with
+  | UcOpenR => match o with OOpenR (Some _) => UNext u UWr | _ => UDone CIdle (OUpd None) end
+  | UcFailCR => UDone CIdle (OUpd None)
+  | UcLH => match m with
+            | MHeaders => vic_next sh u 0%N
+            | _ => UNext u (UCall UcFailCR (usf u) CR1)
+            end
+  | UcVictimOW tries name =>
+      match o with
+      | OOpenW true => UNext (set_uff u name f) USet1
+      | _ => vic_next sh u (tries + 1)%N
+      end
+  | UcAdd => match o with OAdd id => UDone (CUpd (set_ulast u id)) (OAdd id) | _ => UCrash end
+  | UcSW => UNext u UC9
+  | UcFE1 => UNext u UC10
+  | UcFE2 => UNext u UC12
+  | UcFE3 => UNext u UC13
+  | UcUH ab => UNext u (UCall (UcCRs ab) (usf u) CR1)
+  | UcCRs ab =>
+      match ab with
+      | AbOpenFail => UDone CIdle (OUpd None)
+      | AbClient => UNext u (UCall UcAW (uff u) (AB1 false))
+      | AbClose => UNext u (UCall UcCRf (uff u) CR1)
+      end
+  | UcCRf | UcAW => UDone CIdle OUnit
+  end.
+
+Definition ustep (sh : mshared) (u : urec) (q : upc) : mshared * ures * list mevent :=
+  let stale := nthN (usf u) (anchors sh) in
+  let fresh := nthN (uff u) (anchors sh) in
+  match q with
+  | UCall c f p =>
+      let '(sh', r, evs) := astep sh f p in
+      match r with
+      | ANext p' => (sh', UNext u (UCall c f p'), evs)
+      | ADone m o => (sh', ucontinue sh' u c f m o, evs)
+      | ACrashL | ACrashD _ => (sh', UCrash, evs)
+      end
+  (* bool openForUpdating(Update &update, fileNoHint = -1) *)
+  | UFn =>
+      match fileno_of sh (uk u) with
+      | Some sf => (sh, UNext (set_usf u (name_of sh (uk u)) sf) (UCall UcOpenR sf (AL (LcOR (uk u)) (entry MIdle OpLS))), [])
+      | None => (sh, UCrash, [])
+      end
+  | UWr =>
+      match stale with
+      | Some a => if writing (lk a) then (sh, UNext u (UCall UcFailCR (usf u) CR1), [])
+                  else (sh, UNext u (UCall UcLH (usf u) (AL LcLH (entry MIdle OpLH))), [])
+      | None => (sh, UCrash, [])
+      end
+  | UVic tries =>
+      let v := (victim sh + 1) mod 4294967296 in
+      (set_victim sh v, UNext u (UVfn tries (Z.to_N v mod nlimit sh)%N), [])
+  | UVfn tries name =>
+      match nthN name (fileNos sh) with
+      | Some item =>
+          let idx := if item =? 0 then Z.of_N name else item - 1 in
+          if (0 <=? idx) && (idx <? Z.of_N (nlimit sh))
+          then (sh, UNext u (UCall (UcVictimOW tries name) (Z.to_N idx) (AL (LcOW true None) (entry MIdle OpLX))), [])
+          else (sh, UCrash, [])
+      | None => (sh, UCrash, [])
+      end
+  (* fresh.anchor->set(entry) *)
+  | USet1 => match fresh with
+             | Some a => if writing (lk a) then (sh, UNext u USet2, []) else (sh, UCrash, [])
+             | None => (sh, UCrash, [])
+             end
+  | USet2 => match fresh with
+             | Some a => if readers (lk a) =? 0 then (putA sh (uff u) (set_akey a (uk u)), UNext u USet3, []) else (sh, UCrash, [])
+             | None => (sh, UCrash, [])
+             end
+  | USet3 => match fresh with
+             | Some a => (putA sh (uff u) (set_wtbf a false), UNext u USet4, [])
+             | None => (sh, UCrash, [])
+             end
+  | USet4 => (sh, UDone (CUpd u) (OUpd (Some (usf u, uff u))), [])
+  (* SliceId sliceContaining(fileno, bytesNeeded) *)
+  | USC0 n => match stale with
+              | Some a => if readers (lk a) =? 0 then (sh, UCrash, []) else (sh, UNext u (USC1 n), [])
+              | None => (sh, UCrash, [])
+              end
+  | USC1 n => match stale with
+              | Some a => (sh, sc_head sh u n (astart a) 0%N, [])
+              | None => (sh, UCrash, [])
+              end
+  | USC2 n sid seen =>
+      match getS sh sid with
+      | Some s => let seen' := (seen + ssize s)%N in
+                  if (n <=? seen')%N then (sh, UDone (CUpd (set_ussp u sid)) (OSp sid), [])
+                  else (sh, UNext u (USC3 n sid seen'), [])
+      | None => (sh, UCrash, [])
+      end
+  | USC3 n sid seen =>
+      match getS sh sid with
+      | Some s => (sh, sc_head sh u n (snext s) seen, [])
+      | None => (sh, UCrash, [])
+      end
+  (* AssertFlagIsSet(update.stale.anchor->lock.updating) *)
+  | UAF ab =>
+      match stale with
+      | Some a =>
+          if updating (lk a) then
+            (sh, match ab with
+                 | AbClose => UNext u UC2
+                 | _ => UNext u (UCall (UcUH ab) (usf u) (AL LcUH (entry MHeaders OpUH)))
+                 end, [])
+          else (putA sh (usf u) (set_lk a (set_updating (lk a) true)), UCrash, [])
+      | None => (sh, UCrash, [])
+      end
+  (* void closeForUpdating(Update &update) *)
+  | UC2 => match stale with Some a => (sh, UNext u (UC3 (astart a)), []) | None => (sh, UCrash, []) end
+  | UC3 x => match fresh with
+             | Some a => if x =? astart a then (sh, UCrash, []) else (sh, UNext u UC4, [])
+             | None => (sh, UCrash, [])
+             end
+  | UC4 => match stale with
+           | Some a => if astart a =? ufsp u then (sh, UCrash, []) else (sh, UNext u UC5, [])
+           | None => (sh, UCrash, [])
+           end
+  | UC5 => match fresh with
+           | Some a =>
+               if (ussp u =? astart a) || (ussp u =? ufsp u) then (sh, UCrash, [])
+               else match sidx sh (ufsp u), sidx sh (ussp u) with
+                    | Some _, Some _ => (sh, UNext u UC6, [])
+                    | _, _ => (sh, UCrash, [])
+                    end
+           | None => (sh, UCrash, [])
+           end
+  | UC6 => match getS sh (ussp u) with Some s => (sh, UNext u (UC7 (snext s)), []) | None => (sh, UCrash, []) end
+  | UC7 suffix =>
+      match getS sh (ufsp u) with
+      | Some s => if snext s <? 0 then (sh, UNext u (UC8 suffix), []) else (sh, UNext u (UC8b suffix), [])
+      | None => (sh, UCrash, [])
+      end
+  | UC8 suffix =>
+      match getS sh (ufsp u) with
+      | Some s => (putS sh (Z.to_N (ufsp u)) (mkSlice (ssize s) suffix),
+                   UNext u (UCall UcSW (uff u) (AL LcSW (entry MExcl OpSW))), [])
+      | None => (sh, UCrash, [])
+      end
+  | UC8b suffix =>
+      match getS sh (ufsp u) with
+      | Some s => if snext s =? suffix then (sh, UNext u (UCall UcSW (uff u) (AL LcSW (entry MExcl OpSW))), [])
+                  else (sh, UCrash, [])
+      | None => (sh, UCrash, [])
+      end
+  | UC9 => match stale with
+           | Some a => if wtbf a then (sh, UNext u (UCall UcFE1 (uff u) (AL LcFE (entry MIdle OpLX))), [])
+                       else (sh, UNext u UC10, [])
+           | None => (sh, UCrash, [])
+           end
+  | UC10 => (set_fileNos sh (updN (usn u) (Z.of_N (uff u) + 1) (fileNos sh)), UNext u UC11, [])
+  | UC11 => match stale with
+            | Some a => if wtbf a then (sh, UNext u (UCall UcFE2 (uff u) (AL LcFE (entry MIdle OpLX))), [])
+                        else (sh, UNext u UC12, [])
+            | None => (sh, UCrash, [])
+            end
+  | UC12 => match stale with
+            | Some a => (putA sh (usf u) (set_asplice a (ussp u)), UNext u (UCall UcFE3 (usf u) (AL LcFE (entry MIdle OpLX))), [])
+            | None => (sh, UCrash, [])
+            end
+  | UC13 => (set_fileNos sh (updN (ufn u) (Z.of_N (usf u) + 1) (fileNos sh)),
+             UNext u (UCall (UcUH AbClose) (usf u) (AL LcUH (entry MHeaders OpUH))), [])
+  end.
+
 (* first pc of an operation started in client mode m *)
 Definition start_op (sh : mshared) (m : cmode) (o : kop) : mshared * spc * list mevent :=
   let f := cm_anchor m in
@@ -562,7 +832,11 @@ Definition start_op (sh : mshared) (m : cmode) (o : kop) : mshared * spc * list 
   | KR k => (sh, KeyR k, [])
   | KAdd z =>
       match first_free (owner sh) 0%N with
-      | Some id => (putO sh id (Some f), Prim f (AS1 b (cm_last m) (Z.of_N id) z), [])
+      | Some id =>
+          match m with
+          | CUpd u => (putO sh id (Some (uff u)), UP u (UCall UcAdd (uff u) (AS1 false (ulast u) (Z.of_N id) z)), [])
+          | _ => (putO sh id (Some f), Prim f (AS1 b (cm_last m) (Z.of_N id) z), [])
+          end
       | None => (sh, Rdy, [MRet o (OAdd (-1)) m])
       end
   | KApp => (sh, Prim f SA0, [])
@@ -575,6 +849,10 @@ Definition start_op (sh : mshared) (m : cmode) (o : kop) : mshared * spc * list 
       if (g <? nlimit sh)%N then (sh, Tran g (AL LcFE (entry MIdle OpLX)), [])
       else (sh, StuckT g MIdle, [MCrash])
   | KK k => (sh, KeyF k, [])
+  | KU k => (sh, UP (urec0 k) UFn, [])
+  | KSp n => (sh, match m with CUpd u => UP u (USC0 n) | _ => Rdy end, [])
+  | KCu => (sh, match m with CUpd u => UP u (UAF AbClose) | _ => Rdy end, [])
+  | KAu => (sh, match m with CUpd u => UP u (UAF AbClient) | _ => Rdy end, [])
   end.
 
 (* one scheduling step of a process *)
@@ -625,6 +903,13 @@ Definition tstep (sh : mshared) (th : mthread) : mshared * mthread * list mevent
       | ACrashL => (sh', mkT m CrashedL (cur th) (scr th), evs ++ [MCrash])
       | ACrashD lm => (sh', mkT m (StuckT g lm) (cur th) (scr th), evs ++ [MCrash])
       end
+  | UP u q =>
+      let '(sh', r, evs) := ustep sh u q in
+      match r with
+      | UNext u' q' => (sh', mkT m (UP u' q') (cur th) (scr th), evs)
+      | UDone m' o => (sh', mkT m' Rdy None (scr th), evs ++ match cur th with Some c => [MRet c o m'] | None => [] end)
+      | UCrash => (sh', mkT m (StuckP 0%N MIdle) (cur th) (scr th), evs ++ [MCrash])
+      end
   end.
 
 Definition terminalk (p : spc) : bool :=
@@ -673,7 +958,7 @@ Fixpoint srun_rr (fuel : nat) (st : mstate) : option (mstate * list (N * mevent)
 
 (* generous bound on the rounds a process needs: every operation is at most 40 + 7 * N steps *)
 Definition rounds (n : N) (st : mstate) : nat :=
-  fold_right (fun th a => (S (length (scr th)) * (60 + 8 * N.to_nat n) + a)%nat) 60%nat (mths st).
+  fold_right (fun th a => (S (length (scr th)) * (100 + 60 * N.to_nat n) + a)%nat) 60%nat (mths st).
 
 Definition srun_case (n : N) (scripts : list (list kop)) (sched : list N)
   : option (mstate * list (N * mevent) * N) :=
